@@ -12,12 +12,23 @@ LEAF_T = {
 }
 
 
-def leaf(variant: dict) -> str:
+def kernel(variant: dict) -> str:
+	"""Module below the leaf ('deep' shape): decides a type that reaches the importers of the leaf only through the leaf's inferred SEED."""
+	t, lit, step, zero = LEAF_T[variant.get('t', 'int')]
+	lines = [f'def kernel_val() -> {t}:', f'\treturn {lit}', '', '']
+	for i in range(variant.get('extra', 0)):
+		lines += [f'def kernel_extra_{i}(a: int) -> int:', f'\treturn a + {i}', '', '']
+	return '\n'.join(lines).rstrip('\n') + '\n'
+
+
+def leaf(variant: dict, kernel_name: str | None = None) -> str:
 	t, lit, step, zero = LEAF_T[variant.get('t', 'int')]
 	enum_v = variant.get('enum', 1)
 	extra = variant.get('extra', 0)
+	# SEED: un-annotated module variable; with a kernel module its type is whatever kernel_val() returns (the leaf's text stays the same)
+	head = ['from enum import Enum'] + ([f'from {kernel_name} import kernel_val'] if kernel_name else []) + ['', f'SEED = kernel_val()' if kernel_name else f'SEED = {lit}']
 	lines = [
-		'from enum import Enum', '', '',
+		*head, '', '',
 		'class Tone(Enum):', f'\tLOW = {enum_v}', f'\tHIGH = {enum_v + 1}', '', '',
 		'class Item:', f'\tvalue: {t}', '\tcount: int', '',
 		f'\tdef __init__(self, value: {t}, count: int = 1) -> None:', '\t\tself.value = value', '\t\tself.count = count', '',
@@ -32,7 +43,8 @@ def leaf(variant: dict) -> str:
 
 def mid(name_of_leaf: str, variant: dict, tag: str = 'm') -> str:
 	wrap = variant.get('wrap', 'plain')
-	lines = ['from collections.abc import Callable', f'from {name_of_leaf} import Item, Tone, base_val, make_item', '', '']
+	lines = ['from collections.abc import Callable', f'from {name_of_leaf} import Item, Tone, base_val, make_item, SEED', '', '']
+	lines += [f'def {tag}_seed() -> int:', '\tseed = SEED', '\tseeds = [SEED, seed]', '\treturn len(seeds)', '', '']
 	# closures capturing several names: the order of a capture list is part of the emitted text
 	lines += [f'def {tag}_closure(n: int) -> int:', '\talpha = n + 1', '\tbeta = n + 2', '\tgamma = n + 3', '\tdelta = n + 4',
 		'\tdef inner(k: int) -> int:', '\t\treturn gamma + alpha + k + delta + beta', '',
@@ -82,6 +94,9 @@ class HistProject:
 		self.variants: dict[str, dict] = {}
 		if shape == 'chain':
 			self.names = {'l': f'{pkg}.leaf', 'm': f'{pkg}.mid', 'r': f'{pkg}.root', 'u': f'{pkg}.leaf2'}  # 'leaf' is a prefix of the unrelated module's name
+		elif shape == 'deep':
+			# kernel <- leaf <- (mid_a, mid_b) <- root: the join of the diamond is two imports away from the module that decides the type
+			self.names = {'k': f'{pkg}.kernel', 'l': f'{pkg}.leaf', 'a': f'{pkg}.mid_a', 'b': f'{pkg}.mid_b', 'r': f'{pkg}.root', 'u': f'{pkg}.mid_a2'}
 		else:
 			self.names = {'l': f'{pkg}.leaf', 'a': f'{pkg}.mid_a', 'b': f'{pkg}.mid_b', 'r': f'{pkg}.root', 'u': f'{pkg}.mid_a2'}  # 'mid_a' is a prefix of the unrelated module's name
 		for k in self.names:
@@ -91,7 +106,9 @@ class HistProject:
 		return list(self.names.values())
 
 	def imports_of(self, key: str) -> list[str]:
-		if key in ('l', 'u'):
+		if key == 'l':
+			return ['k'] if self.shape == 'deep' else []
+		if key in ('u', 'k'):
 			return []
 		if key in ('m', 'a', 'b'):
 			return ['l']
@@ -111,7 +128,9 @@ class HistProject:
 	def source(self, key: str) -> str:
 		v = self.variants[key]
 		if key == 'l':
-			return leaf(v)
+			return leaf(v, self.names['k'] if self.shape == 'deep' else None)
+		if key == 'k':
+			return kernel(v)
 		if key == 'u':
 			return unrelated(v)
 		if key == 'r':
@@ -132,6 +151,11 @@ class HistProject:
 				v['t'] = r.choice([x for x in LEAF_T if x != v.get('t', 'int')])
 			elif what == 'enum':
 				v['enum'] = v.get('enum', 1) + r.choice([1, 5])
+			else:
+				v['extra'] = (v.get('extra', 0) + 1) % 3
+		elif key == 'k':
+			if r.random() < 0.8:
+				v['t'] = r.choice([x for x in LEAF_T if x != v.get('t', 'int')])
 			else:
 				v['extra'] = (v.get('extra', 0) + 1) % 3
 		elif key == 'u':
